@@ -191,7 +191,7 @@ package ptracer
 //@   ensures T.kill_count == old(T.kill_count) + 1 && T.kill_last_pid == -pgid && T.kill_last_sig == 9
 //@   callsite collectZombie: assert T.kill_count == old(T.kill_count) + 1
 
-//@ func ptracer.(*Tracer).trace props C09 C12 C15
+//@ func ptracer.(*Tracer).trace props C08 C09 C12 C15
 //@   arith bv
 //@   requires t != nil && t.Handler != nil
 //@   assigns T.cont_count, T.options, T.setregs_count, T.setregs_orig_rax, T.setregs_rax, T.setregs_pid, T.kill_count, T.kill_last_pid, T.kill_last_sig, UseVMReadv, Q._all
@@ -199,4 +199,6 @@ package ptracer
 //@   loop 0: invariant ph != nil && fresh(ph) && ph.Tracer == t && ph.traced != nil && fresh(ph.traced) && ph.pgid == pgid
 //@   loop 0: invariant forall q int :: has(ph.traced, q) && ph.traced[q] ==> T.options[q] == 1048734
 //@   ensures @C09 @C15 int(result.Status) == 8 ==> len(result.Error) > 0
+//@   callsite return: assert @C08 int(curStatus) != 1 ==> result.Status == curStatus && result.Time == userTime && result.Memory == userMem
+//@   callsite return: assert @C09 finished || int(status) != 1 ==> result.Status == status && result.ExitStatus == exitStatus && result.Error == errStr
 //@   ensures @C12 T.kill_count >= old(T.kill_count) + 1 && T.kill_last_pid == -pgid && T.kill_last_sig == 9
